@@ -94,6 +94,13 @@ type Stream struct {
 	Prelude string // jq evaluated once per interpreter, e.g. "options({...}) as $o |"
 	Body    string
 	Restart int // inputs after which a fresh interpreter is started (default 2000)
+	// MaxWork: a fresh interpreter is also started once the work units handed
+	// to NextW since the last start exceed this (default 60000).  gojq's
+	// variable frame of a long-running evaluation only ever grows (one slot
+	// block per function call that is not backtracked over): a million rows
+	// through one interpreter hold gigabytes.
+	MaxWork int
+	work    int
 	x       *fqx.Interp
 	iter    gojq.Iter
 	n       int
@@ -123,22 +130,30 @@ func (s *Stream) open() error {
 		x.Close()
 		return fmt.Errorf("compile: %w", err)
 	}
-	s.x, s.iter, s.n = x, iter, 0
+	s.x, s.iter, s.n, s.work = x, iter, 0, 0
 	s.Opened++
 	return nil
 }
 
 // Next evaluates BODY with the given input.
-func (s *Stream) Next(input any) ([]any, error) {
+func (s *Stream) Next(input any) ([]any, error) { return s.NextW(input, 1) }
+
+// NextW is Next with the number of work units (rows, values) of this input.
+func (s *Stream) NextW(input any, work int) ([]any, error) {
 	restart := s.Restart
 	if restart <= 0 {
 		restart = 2000
 	}
-	if s.iter == nil || s.n >= restart {
+	maxWork := s.MaxWork
+	if maxWork <= 0 {
+		maxWork = 60000
+	}
+	if s.iter == nil || s.n >= restart || (s.work > 0 && s.work+work > maxWork) {
 		if err := s.open(); err != nil {
 			return nil, err
 		}
 	}
+	s.work += work
 	pendingMu.Lock()
 	pending = input
 	pendingMu.Unlock()
